@@ -135,6 +135,7 @@ def h_deflation(env, opts, patt, n, ref_state=None, narrow=False, two=False):
         cds.append(Circuit([Gate("H", 0), Gate("CNOT", 1, 0)] + ([Gate("X", 3)] if n == 4 else []), n_qubits=n))
     opts["deflation_circuits"] = cds
     opts["deflation_coeff"] = coeff
+    opts["save_energies"] = True
     try:
         s = make_solver(env, opts)
         th = vec(env, "th", patt)
@@ -149,6 +150,9 @@ def h_deflation(env, opts, patt, n, ref_state=None, narrow=False, two=False):
         ov = R.inner(st, R.run_gates(c_._gates, n))
         surplus = surplus + ov * R.n_conj(ov)
     env.check_eq(e, plain + coeff * surplus, f"energy with {len(cds)} deflation circuit(s) == plain energy + coeff * sum_k |<psi|phi_k>|^2")
+    env.check_true(len(s.energies) >= 1, "save_energies records the evaluation")
+    if s.energies:
+        env.check_eq(s.energies[-1], e, "the energy recorded with save_energies is the value energy_estimation returned (deflation included)")
 
 
 def decode_amplitudes(st, n_so, mapping, utd):
@@ -390,6 +394,43 @@ def h_simulate(env, opts, n, projective=False):
     env.check_vec_eq(list(s.optimal_var_params), list(th), "simulate(): optimal_var_params are the optimiser's")
 
 
+def h_initial_state(env, mapping, utd):
+    """simulate_options={'initial_statevector': psi} (symbolic psi): the energy AND the symmetry / user-operator expectation values
+    refer to the state obtained by running the solver's circuit on psi"""
+    from harness.c01 import as_array
+    from tangelo.algorithms.variational import BuiltInAnsatze
+    from tangelo.toolboxes.operators import QubitOperator
+    molecule = mol("H2")
+    n = 4
+    psi = env.state(n, "psi", normalized=True)
+    opts = dict(molecule=molecule, qubit_mapping=mapping, up_then_down=utd, ansatz=BuiltInAnsatze.UCCSD)
+    try:
+        s = make_solver(env, opts)
+        s.simulate_options = {"initial_statevector": as_array(env, psi)}
+        th = vec(env, "th", "sp")
+        op = QubitOperator()
+        op.terms[((0, "Z"), (2, "X"))] = env.real("u0", lo=-2, hi=2)
+        op.terms[((1, "Y"),)] = env.real("u1", lo=-2, hi=2)
+        with sym_alloc(env):
+            e = s.energy_estimation(list(th))
+            vn = s.operator_expectation("N", list(th))
+            vs = s.operator_expectation("Sz", list(th))
+            vu = s.operator_expectation(op, list(th))
+            st = R.run_gates(list(s.ansatz.circuit._gates), n, psi)
+    finally:
+        c02._restore()
+    env.check_eq(e, R.expectation(st, n, dict(s.qubit_hamiltonian.terms)), "energy_estimation with an initial statevector == <H> of circuit|psi>")
+    env.check_eq(vu, R.expectation(st, n, dict(op.terms)), "operator_expectation(user operator) with an initial statevector == value on circuit|psi>")
+    amps = decode_amplitudes(st, molecule.n_active_sos, mapping, utd)
+    wn, ws = R.C(0), R.C(0)
+    for f, a in amps.items():
+        p = a * R.n_conj(a)
+        wn = wn + sum(f) * p
+        ws = ws + R.C(sum(f[0::2]) - sum(f[1::2])) / 2 * p
+    env.check_eq(vn, wn, f"operator_expectation('N') with an initial statevector == value on circuit|psi>  [{mapping}, up_then_down={utd}]")
+    env.check_eq(vs, ws, f"operator_expectation('Sz') with an initial statevector == value on circuit|psi>  [{mapping}, up_then_down={utd}]")
+
+
 def h_two_solvers(env, ansatz_name):
     """two solvers built from the same BuiltInAnsatze member in one process (a potential-energy scan): after both have run
     simulate() - with a stand-in optimiser that evaluates one symbolic point each - the FIRST solver's optimal_circuit still
@@ -533,6 +574,8 @@ def shapes(tier, seed):
     for key in ("H2",) + (("H4",) if tier == "thorough" else ()):
         for which in ("N", "Sz", "S^2"):
             out.append(Shape(f"symmetry/{which}/{key}/hcb-puccd", h_symmetry_hcb, dict(key=key, which=which), modules=MODS, max_paths=64))
+    for mp_, utd_ in (("jw", False),) + ((("bk", True),) if tier == "thorough" else ()):       # ~50-80 s each (32 symbolic amplitude components)
+        out.append(Shape(f"initial-state/H2/{mp_}/utd={int(utd_)}", h_initial_state, dict(mapping=mp_, utd=utd_), modules=MODS, max_paths=64))
     for an in ("UCC1", "UCCSD"):            # (UCC3: the exact comparison of its 3-parameter state exceeds the quick budget)
         out.append(Shape(f"two-solvers/{an}", h_two_solvers, dict(ansatz_name=an), modules=MODS, max_paths=64))
     out.append(Shape("refstate/uccsd/H2/jw", h_refstate, dict(patt="ss"), modules=MODS, max_paths=64))
